@@ -143,3 +143,38 @@ func VerifC08TwoCompactions() {
 	zzverif.Assert(err != nil, "a range read below an accepted compaction is refused")
 	zzverif.Cover("done")
 }
+
+// VerifC08TwoNodes: two nodes share one engine (a leader and a follower that serves reads at the
+// leader's revision). The follower has just served a range read; the leader accepts a compaction
+// at R; a range read, limited range read or streamed range below R on the follower — which starts
+// after the compaction was accepted — is refused, exactly as on the leader.
+func VerifC08TwoNodes() {
+	w := vNewWorld(1)
+	w.vScenario(1) // two live versions
+	w.vWriteSeq(1)
+	zzverif.WaitIdle()
+	follower := vNewBackend(w.s, w.dealt, 4)
+	rg := vRanges[0]
+	_, err := follower.List(vCtx(), &proto.RangeRequest{Key: rg[0], End: rg[1]})
+	zzverif.Assert(err == nil, "follower: range read before the compaction")
+	c := zzverif.U64("c")
+	zzverif.Assume(zzverif.And(c > w.base+1, c <= w.dealt))
+	ok, eff := w.compact(c)
+	zzverif.Assert(ok && eff == c, "leader: compaction accepted")
+	r := zzverif.U64("R")
+	zzverif.Assume(zzverif.And(r > w.base, r < c))
+	switch zzverif.Choose("read", 3) {
+	case 0:
+		_, err := follower.List(vCtx(), &proto.RangeRequest{Key: rg[0], End: rg[1], Revision: r})
+		zzverif.Assert(err != nil, "follower: unlimited range read below the floor is refused")
+	case 1:
+		_, err := follower.List(vCtx(), &proto.RangeRequest{Key: rg[0], End: rg[1], Revision: r, Limit: 1})
+		zzverif.Assert(err != nil, "follower: limited range read below the floor is refused")
+	default:
+		ch, err := follower.ListByStream(vCtx(), follower.coder.EncodeObjectKey(rg[0], 0), follower.coder.EncodeObjectKey(rg[1], 0), r)
+		zzverif.Assert(err == nil, "stream starts")
+		kvs, nterm, errText, _, _ := vDrain(ch)
+		zzverif.Assert(nterm == 1 && errText != "" && len(kvs) == 0, "follower: streamed range below the floor ends with an error and no data")
+	}
+	zzverif.Cover("done")
+}
